@@ -6,7 +6,7 @@ real source by (file, class, function name) and re-read from /repo on every run.
 import z3
 from fractions import Fraction
 from . import sym
-from .sym import (T, TInt, TNum, TNumK, TBool, TKey, TVal, TFn, TNone, TDict, TSet, TList, TTuple, TObj,
+from .sym import (T, TInt, TNum, TNumK, TBool, TKey, TVal, TFn, TFnRole, TNone, TDict, TSet, TList, TTuple, TObj, TArr, SArr,
                   SNum, SBool, SKey, SVal, SFn, SDict, SSet, SList, STuple, SObj, NONE)
 
 FUNCS = {}      # "Class.method" / "function" -> FuncSpec
@@ -101,7 +101,7 @@ class FuncSpec:
                  raises=None, modifies=None, modifies_args=(), ghost_update=None, pure=False, ret=None,
                  returns_self=False, loops=None, lemmas=None, logical=None, inline=False, may_fail=False,
                  assume_only=False, entry_inv=True, exit_inv=True, notes='', src_cls=None, implements=None,
-                 local_types=None, exc_inv=False, src_name=None, opaque=None, callee_variants=None):
+                 local_types=None, exc_inv=False, src_name=None, opaque=None, callee_variants=None, mirrors=None):
         self.key = key
         self.file = file
         self.params = dict(params or {})
@@ -130,6 +130,7 @@ class FuncSpec:
         self.local_types = dict(local_types or {})
         self.exc_inv = exc_inv
         self.src_name = src_name
+        self.mirrors = dict(mirrors or {})   # real list field -> (ghost list field, lambda(c) -> value recorded per write)
         self.callee_variants = dict(callee_variants or {})
         self.opaque = opaque            # lambda(c) -> opaque atom standing for the whole postcondition (assumed at call sites)
 
@@ -157,10 +158,8 @@ def loop(**kw):
 # ------------------------------------------------------------------------------------------------
 def view(v):
     if isinstance(v, SNum):
-        if v.np is not None:
-            return v
         return v.t
-    if isinstance(v, (SBool, SKey, SVal, SFn)):
+    if isinstance(v, (SBool, SKey, SVal, SFn, SArr)):
         return v.t
     if isinstance(v, SObj):
         return ObjView(v)
